@@ -46,7 +46,7 @@ func parseInitDoc(text string) (any, bool) {
 	return v, err == nil
 }
 
-var pathMenu = []string{"a", "a.b", "a[0]", "a[-1]", "[1]", "$", "a.*", "*", "..b", "a[1].b", "b", "a.c", "-"}
+var pathMenu = []string{"a", "a.b", "a[0]", "a[-1]", "[1]", "$", "a.*", "*", "..b", "a[1].b", "b", "a.c", "a.c[0]", "-"}
 var pathMenuThoroughExtra = []string{"[0]", "a[1]", "[-1].b"}
 
 type setValue struct {
@@ -59,6 +59,8 @@ var setValues = []setValue{
 	{"7", "7", int64(7)},
 	{"nil", "nil", nil},
 	{"map", `'(("c" . 1))`, map[string]any{"c": int64(1)}},
+	// a container holding a container: a wildcard or descent set must give every location its own copy all the way down
+	{"nest", `'(("c" . (1 2)))`, map[string]any{"c": []any{int64(1), int64(2)}}},
 	{"str", `"s"`, "s"},
 	{"list", `'(8 9)`, []any{int64(8), int64(9)}},
 }
@@ -75,7 +77,7 @@ func valueByName(n string) (setValue, bool) {
 func bfsOps(tier string) []string {
 	docs := initDocsQuick
 	paths := pathMenu
-	vals := setValues[:3]
+	vals := setValues[:4]
 	if tier == engine.Thorough {
 		docs = append(append([]string{}, docs...), initDocsThoroughExtra...)
 		paths = append(append([]string{}, paths...), pathMenuThoroughExtra...)
